@@ -867,6 +867,21 @@ class Interp:
         return TupleVal(self._elts(ctx, env, n.elts))
 
     def e_List(self, ctx, env, n):
+        from . import builtins_ as BB
+        if any(isinstance(e, ast.Starred) for e in n.elts):
+            parts = []
+            for e in n.elts:
+                if isinstance(e, ast.Starred):
+                    parts.append(self.eval(ctx, env, e.value))
+                else:
+                    parts.append(ListVal([self.eval(ctx, env, e)]))
+            if any(self.is_symbolic_seq(p) for p in parts):
+                seq = None
+                for p in parts:
+                    sq = self.as_seq(ctx, p)
+                    seq = sq if seq is None else BB.seq_concat(seq, sq)
+                return SymList(seq)
+            return ListVal([x for p in parts for x in self.iterate(ctx, p)])
         return ListVal(self._elts(ctx, env, n.elts))
 
     def e_Set(self, ctx, env, n):
@@ -988,6 +1003,9 @@ class Interp:
                 return Sym(z3.Not(v.e))
             return not self.truth(ctx, v)
         if isinstance(n.op, ast.USub):
+            from . import nparr as _np
+            if isinstance(v, _np.Inf):
+                return _np.Inf(not v.positive)
             return self.binop(ctx, ast.Sub(), 0, v)
         if isinstance(n.op, ast.UAdd):
             return v
